@@ -112,11 +112,7 @@ func (d *decoder) decodeArray(v value, elemType reflect.Type, decodeElem decodeF
 	if n := d.readInt32(); n < 0 || d.lengthOutOfBounds(int(n)) {
 		v.setArray(array{})
 	} else {
-		a := makeArray(elemType, int(n))
-		for i := 0; i < int(n) && d.remain > 0; i++ {
-			decodeElem(d, a.index(i))
-		}
-		v.setArray(a)
+		v.setArray(d.decodeElems(elemType, int(n), decodeElem))
 	}
 }
 
@@ -124,12 +120,42 @@ func (d *decoder) decodeCompactArray(v value, elemType reflect.Type, decodeElem 
 	if n := d.readUnsignedVarInt(); n < 1 || d.lengthOutOfBounds(toLength(n-1)) {
 		v.setArray(array{})
 	} else {
-		a := makeArray(elemType, int(n-1))
-		for i := 0; i < int(n-1) && d.remain > 0; i++ {
-			decodeElem(d, a.index(i))
-		}
-		v.setArray(a)
+		v.setArray(d.decodeElems(elemType, int(n-1), decodeElem))
 	}
+}
+
+// arrayChunk is the number of array elements allocated before any of them
+// has been received.
+const arrayChunk = 1024
+
+// decodeElems decodes an array of n elements. The count comes from the wire
+// and is only known not to exceed the bytes that the frame size prefix
+// announces, which may be far more than what the peer actually sends: the
+// array is allocated as its elements arrive instead of n elements upfront.
+func (d *decoder) decodeElems(elemType reflect.Type, n int, decodeElem decodeFunc) array {
+	m := n
+	if m > arrayChunk {
+		m = arrayChunk
+	}
+	a := makeArray(elemType, m)
+	i := 0
+	for ; i < n && d.remain > 0 && d.err == nil; i++ {
+		if i == a.length() {
+			m = 2 * a.length()
+			if m > n {
+				m = n
+			}
+			a = growArray(elemType, a, m)
+		}
+		decodeElem(d, a.index(i))
+	}
+	if d.err == nil && a.length() < n {
+		// The frame ended before the last elements: they keep their zero
+		// value. All the announced bytes were received, n does not exceed
+		// them.
+		a = growArray(elemType, a, n)
+	}
+	return a
 }
 
 func (d *decoder) discardAll() {
